@@ -71,6 +71,7 @@ type Entry struct {
 	Answer     string
 	AnsweredAt time.Duration
 	Applied    bool
+	ClientGone bool // produce: applied after the client had closed the connection the request came on
 	RespBytes  int
 	Held       bool // waiting for a group barrier
 	sc         *srvConn
